@@ -41,6 +41,37 @@ type c13World struct {
 	ExpDesc  string
 	Choices  bool
 	DataJSON string
+	ImplJSON string // the data as the JSON-reader and reflection backends hold it ("" : DataJSON)
+	Keys     bool   // the fixed world of multi-key lists and of nodes without definitions (c13KeysYang)
+}
+
+// c13KeysYang: lists with one, two and three keys (also nested, also below a container) and every kind of node
+// that holds no definitions: leaf, leaf-list, choice, anydata, anyxml, action, rpc. The reference store and the
+// flat schema view (tree.SNode) do not know anydata / anyxml / actions: no request on this world names such a node
+// as the last segment of a path, the data of the store leaves them out (c13KeysData) and the JSON-reader /
+// reflection backends hold c13KeysImplData.
+const c13KeysYang = `module k { namespace "urn:k"; prefix k; revision 2020-01-01;
+ list l1 { key a; leaf a { type string; } leaf v { type int32; } anydata extra; }
+ list l2 { key "a b"; leaf a { type int32; } leaf b { type string; } leaf v { type int32; }
+   list in3 { key "x y z"; leaf x { type string; } leaf y { type uint8; } leaf z { type string; } leaf w { type string; } } }
+ list l3 { key "a b c"; leaf a { type string; } leaf b { type int64; } leaf c { type string; }
+   container d { leaf e { type string; } anyxml doc; } }
+ container c { leaf l { type string; } leaf-list ll { type string; } anydata blob; anyxml doc;
+   choice ch { case one { leaf l1 { type string; } } case two { leaf l2x { type string; } } }
+   action reset { input { leaf x { type string; } } }
+   list m2 { key "p q"; leaf p { type string; } leaf q { type string; } anydata extra; } }
+ rpc doit { input { leaf x { type string; } } }
+}`
+
+const c13KeysData = `{"l1":[{"a":"x","v":1},{"a":"y"}],"l2":[{"a":1,"b":"x","v":2,"in3":[{"x":"p","y":2,"z":"q","w":"r"}]},{"a":2,"b":"y"}],"l3":[{"a":"a","b":5,"c":"c","d":{"e":"f"}}],"c":{"l":"hello","ll":["q"],"l1":"one","m2":[{"p":"p1","q":"q1"}]}}`
+
+const c13KeysImplData = `{"l1":[{"a":"x","v":1,"extra":{"x":{"y":2}}},{"a":"y"}],"l2":[{"a":1,"b":"x","v":2,"in3":[{"x":"p","y":2,"z":"q","w":"r"}]},{"a":2,"b":"y"}],"l3":[{"a":"a","b":5,"c":"c","d":{"e":"f","doc":{"x":1}}}],"c":{"l":"hello","ll":["q"],"blob":{"x":1},"doc":{"x":{"y":[1,2]}},"l1":"one","m2":[{"p":"p1","q":"q1","extra":{"x":1}}]}}`
+
+func (w *c13World) implJSON() string {
+	if w.ImplJSON != "" {
+		return w.ImplJSON
+	}
+	return w.DataJSON
 }
 
 const c13FixedYang = `module m { namespace "urn:m"; prefix m; revision 2020-01-01;
@@ -140,6 +171,26 @@ func c13Worlds(seed uint64, n int) ([]*c13World, error) {
 		}
 		worlds = append(worlds, w)
 	}
+	// last world: fixed, multi-key lists and nodes without definitions
+	{
+		m, err := parser.LoadModuleFromString(nil, c13KeysYang)
+		if err != nil {
+			return nil, err
+		}
+		w := &c13World{Idx: n, Yang: c13KeysYang, M: m, Root: tree.Root(m), Data: tree.NewCont(), ImplJSON: c13KeysImplData, Keys: true, Choices: true}
+		src, err := nodeutil.ReadJSON(c13KeysData)
+		if err != nil {
+			return nil, err
+		}
+		b := node.NewBrowser(m, w.Data.Node(w.Root, nil, ""))
+		if err := b.Root().UpsertFrom(src); err != nil {
+			return nil, err
+		}
+		if err := finish(w); err != nil {
+			return nil, err
+		}
+		worlds = append(worlds, w)
+	}
 	return worlds, nil
 }
 
@@ -159,6 +210,9 @@ type c13Req struct {
 	// selection is a list entry (the model rebuilds the chain of parent selections from these)
 	AtNames []string `json:"at_names,omitempty"`
 	AtRow   bool     `json:"at_row,omitempty"`
+	// node implementation the browser of a path request stands on: "" the reference store, "json" the library's
+	// JSON reader over the world's data, "reflect" nodeutil.Reflect over the decoded data (maps and slices)
+	Impl string `json:"impl,omitempty"`
 }
 
 // c13MustErr: the mismatch classes the property names (an object where a list is declared, a scalar where a
@@ -176,6 +230,13 @@ func c13MustErr(tag string) bool {
 		return true
 	case strings.HasPrefix(tag, "path-key-on-"), strings.HasPrefix(tag, "path-below-"):
 		return true
+	case strings.HasPrefix(tag, "json-at-list/"), strings.HasPrefix(tag, "json-insert-at-list/"):
+		// the edit starts at the list selection, the body is { list : v }: anything but an array is "an object /
+		// a scalar where a list is declared", an array of non-entries is rejected like json-shape/list/*
+		return !strings.HasSuffix(tag, "/arr0")
+	case strings.HasPrefix(tag, "json-at-entry/"):
+		// the edit starts at a list entry, the body is v: an array or a scalar where the entry object is expected
+		return !strings.HasSuffix(tag, "/obj0") && !strings.HasSuffix(tag, "/obj1") && !strings.HasSuffix(tag, "/null")
 	}
 	return false
 }
@@ -185,8 +246,8 @@ type c13Resp struct {
 	Frame     string `json:"frame,omitempty"`
 	Msg       string `json:"msg,omitempty"`
 	Preserved bool   `json:"preserved"`
-	Changed   bool   `json:"changed"`         // store differs from the original (informational)
-	Match     int    `json:"match,omitempty"` // match kind: 1 false, 2 true; path at a sub-selection with a query: 1 differs from / 2 same as the Find without the query
+	Changed   bool   `json:"changed"`           // store differs from the original (informational)
+	Match     int    `json:"match,omitempty"`   // match kind: 1 false, 2 true; path at a sub-selection with a query: 1 differs from / 2 same as the Find without the query
 	NoQuery   string `json:"noquery,omitempty"` // path at a sub-selection with a query: what the Find without the query did
 }
 
@@ -508,8 +569,24 @@ func c13Exec(w *c13World, rq *c13Req) (resp c13Resp) {
 				}
 			}
 		}()
-		b := node.NewBrowser(w.M, store.Node(w.Root, nil, ""))
-		err := c13Run(w, rq, b, &resp)
+		var n node.Node
+		var err error
+		switch rq.Impl {
+		case "json":
+			n, err = nodeutil.ReadJSON(w.implJSON())
+		case "reflect":
+			var doc map[string]interface{}
+			if err = json.Unmarshal([]byte(w.implJSON()), &doc); err == nil {
+				n = nodeutil.ReflectChild(doc)
+			}
+		default:
+			n = store.Node(w.Root, nil, "")
+		}
+		if err != nil {
+			panic("harness: backend " + rq.Impl + ": " + err.Error())
+		}
+		b := node.NewBrowser(w.M, n)
+		err = c13Run(w, rq, b, &resp)
 		if err != nil {
 			resp.Class = "Err"
 			resp.Msg = err.Error()
